@@ -94,13 +94,13 @@ add("F9", ["C01"], "C01.prims|null-array|GetArrayElem", "indexing the empty rest
 add("F22", B, "C01.bounds|bump|region@512", "WASM state-exchange region 512..1024 (64 words) is never bounded: 70 functions using `self` push GetState scratch slots into the allocation area; dsp returns 1,3,5 instead of 300 (findings/repro/F22_state_temp_overflow.mmm)")
 
 # ---- stated beliefs (C03.belief; the same sites are cited by C04.belief) -------------------------------
-add("F7", ["C03"], 'C03.belief|site|compiler::mirgen::Context::try_make_delay|unreachable|unreachable!("unbounded delay access, should be an error at typing stage.")', "delay(n, x, t) with a non-literal n: unreachable! in mirgen on both back ends (the type checker accepts it)")
-fixed("F8", "C03", "c700c48", 'C03.belief|site|compiler::typing::InferContext::infer_type|unimplemented|unimplemented!("Assignment to array is not implemented yet.")', "`a[0] = 3.0` hit unimplemented!() inside the type checker (both back ends); now the diagnostic ArrayElementAssignment (findings/repro/F8_*.mmm)")
-fixed("F23", "C03", "dd3950c", "C03.belief|site|<mir::StateType as std::convert::From<interner::TypeNodeId>>::from|todo|todo!()", "`self` in a function whose value is a string, a variant or a boxed value hit todo!() in StateType::from and panicked the compiler on both back ends; the cell now has the type\'s word size (findings/repro/F23_*.mmm)")
+add("F7", ["C03"], 'C03.belief|site|compiler::mirgen::Context|unreachable|unbounded delay access, should be an error at typing stage.', "delay(n, x, t) with a non-literal n: unreachable! in mirgen on both back ends (the type checker accepts it)")
+fixed("F8", "C03", "c700c48", 'C03.belief|site|compiler::typing::InferContext|unimplemented|Assignment to array is not implemented yet.', "`a[0] = 3.0` hit unimplemented!() inside the type checker (both back ends); now the diagnostic ArrayElementAssignment (findings/repro/F8_*.mmm)")
+fixed("F23", "C03", "dd3950c", 'C03.belief|site|<mir::StateType as std::convert::From<interner::TypeNodeId>>|todo|-', "`self` in a function whose value is a string, a variant or a boxed value hit todo!() in StateType::from and panicked the compiler on both back ends; the cell now has the type\'s word size (findings/repro/F23_*.mmm)")
 
 # ---- C13 -------------------------------------------------------------------------------------------------
 add("F10", ["C13"], "C13.trivia|loss|compiler::parser::preparser::preparse|clear", "preparse discards trivia that precedes the first syntax token when it ends in a line break (pending_trivia.clear()); asserted by the repo's own unit test test_preparse_leading_trivia, so it cannot be repaired without editing tests")
-fixed("F8", "C04", "c700c48", 'C04.belief|site|compiler::typing::InferContext::infer_type|unimplemented|unimplemented!("Assignment to array is not implemented yet.")', "same defect seen from the front-end entry points")
+fixed("F8", "C04", "c700c48", 'C04.belief|site|compiler::typing::InferContext|unimplemented|Assignment to array is not implemented yet.', "same defect seen from the front-end entry points")
 
 # ---- C05 -------------------------------------------------------------------------------------------------
 for _p in ("C05", "C07"):
